@@ -1,6 +1,6 @@
 #!/usr/bin/env python3
 """Confirm a seeded mutant in a scratch worktree and run a check against it.
-usage: tools/seed.py <PROP> <mutdir> <demo_rel_path> [--name NAME] [--checks C03,C04] [--notests]
+usage: tools/seed.py <PROP> <mutdir> <demo_rel_path> [--name NAME] [--checks C03,C04] [--notests] [--what 'one line']
  mutdir holds patch.diff, demo_test.go, notes.md; demo_rel_path e.g. actor/zz_demo_test.go"""
 import json, os, shutil, subprocess, sys, time
 
@@ -85,6 +85,12 @@ def main():
         shutil.copy(os.path.join(mutdir, "notes.md"), dst)
     meta["demo_path"] = demo_rel
     old_path = os.path.join(dst, "meta.json")
+    if "--what" in a:
+        meta["what"] = a[a.index("--what") + 1]
+    elif os.path.exists(old_path):
+        w = json.load(open(old_path)).get("what")
+        if w:
+            meta["what"] = w
     if "--notests" in a and os.path.exists(old_path):
         old = json.load(open(old_path))
         if any("baseline tests" in r.get("cmd", "") for r in old.get("ran", [])):
